@@ -316,7 +316,7 @@ def tasks(tier, seed):
     t = [(MOD, "machines", (n // shards, seed * 1_000_003 + i, steps)) for i in range(shards)]
     t += [(MOD, "hashseed", (f, 4 if tier == "quick" else 8)) for f in ([0, 16, 12] if tier == "quick" else range(len(FAMILIES)))]
     fams = range(len(FAMILIES)) if tier == "thorough" else [0, 2, 7, 12, 13, 15, 19, 20]
-    t += [(MOD, "two_step", (f, sh, 4)) for f in fams for sh in range(4)]
+    t += [(MOD, "two_step", (f, sh, 4, tier == "thorough" or f in (2, 20))) for f in fams for sh in range(4)]
     if tier == "thorough":
         t += [(MOD, "fresh", (seed * 77 + i, 20)) for i in range(16)]
     else:
@@ -324,7 +324,7 @@ def tasks(tier, seed):
     return t
 
 
-def two_step(acc, fam_idx, shard, nshards):
+def two_step(acc, fam_idx, shard, nshards, spelled=True):
     """Exhaustive small scope: for one atom family, every history consisting of ONE binary operation on two atoms,
     followed by every probe `x op y` and `(x op y) op z` over the family.  warm (after the history) vs cold."""
     layer = "L1-two-step-histories"
@@ -340,7 +340,8 @@ def two_step(acc, fam_idx, shard, nshards):
     hist = [[op, leaf(x), leaf(y)] for op in ("and", "or") for x, y in itertools.product(atoms, repeat=2)]
     probes = [[op, leaf(x), leaf(y)] for op in ("and", "or") for x, y in itertools.product(atoms, repeat=2)]
     # the same pairs in the other spelling of their literals (X.Y / X.Y.0): equal operands, different text
-    probes += [[op, ["parse", x, 2], ["parse", y, 2]] for op in ("and", "or") for x, y in itertools.product(atoms, repeat=2)]
+    if spelled:
+        probes += [[op, ["parse", x, 2], ["parse", y, 2]] for op in ("and", "or") for x, y in itertools.product(atoms, repeat=2)]
     probes += [[op2, [op1, leaf(x), leaf(y)], leaf(z)] for op1 in ("and", "or") for op2 in ("and", "or") for x, y, z in itertools.product(atoms, repeat=3)]
     cold_obs = {}
     for pi, p in enumerate(probes):
